@@ -25,6 +25,7 @@ type HarnessSpec struct {
 	TimeoutMS int              `json:"timeout_ms"`
 	StepLimit int64            `json:"step_limit"`
 	MaxPaths  int              `json:"max_paths"`
+	MaxWallS  int              `json:"max_wall_s"`
 	NoIfConv  bool             `json:"no_ifconv"`
 	MaxConcretize int          `json:"max_concretize"`
 	ThoroughOnly bool          `json:"thorough_only"`
